@@ -60,6 +60,34 @@ class Real:
         ev.update(self.state())
         return ev
 
+    def save(self):
+        """scheduler.state_dict() (StopOnPlateau only)."""
+        self.snapshot = self.ctl.state_dict()
+        ev = {"act": "save"}
+        ev.update(self.state())
+        return ev
+
+    def restore(self):
+        """checkpoint restore: a NEW scheduler (with a new optimizer) loads the saved state_dict."""
+        t = self.torch
+        pp = pypose()
+        old = self.ctl
+
+        class Net(t.nn.Module):
+            def __init__(self):
+                super().__init__()
+                self.p = t.nn.Parameter(t.zeros(1))
+
+            def forward(self, x):
+                return self.p * x
+        self.opt = pp.optim.LM(Net())
+        self.ctl = pp.optim.scheduler.StopOnPlateau(self.opt, steps=self.mx, patience=self.pat, decreasing=float(self.dec))
+        self.ctl.load_state_dict(self.snapshot)
+        # (the saved controller object lives on; it must not influence the restored one)
+        ev = {"act": "restore"}
+        ev.update(self.state())
+        return ev
+
     def reset(self, act="reset"):
         if self.kind == "SoP":
             self.ctl.load_state_dict(dict(self.initial))
@@ -323,10 +351,18 @@ def random_traces(ctx, n, length):
         ev = []
         last = [rng.randint(1 << 12, 1 << 20) for _ in range(batch)]
         dtype = rng.choice([None, torch.float64, torch.float32]) if kind == "RtB" else None
+        saved = False
         for _ in range(length):
             r = rng.random()
             if r < 0.06:
                 ev.append(real.reset())
+                continue
+            if kind == "SoP" and r < 0.10:
+                ev.append(real.save())
+                saved = True
+                continue
+            if kind == "SoP" and saved and r < 0.14:
+                ev.append(real.restore())
                 continue
             loss = []
             for b in range(batch):
@@ -380,6 +416,8 @@ def judge(ctx, traces, verdicts):
         if v != "ok":
             clause, at = v.split("@")
             act = tr["ev"][int(at) - 1]["act"]
+            if any(e["act"] == "restore" for e in tr["ev"][:int(at)]) and act != "restore":
+                act = act + "_after_restore"
             ctx.violation("%s/%s/%s" % (kind, act, clause),
                           "%s: real %s trace rejected by ControllersTrace at event %s (%s): clause %s; event=%s prev=%s"
                           % (tr.get("what"), kind, at, act, clause, tr["ev"][int(at) - 1],
@@ -399,7 +437,7 @@ def run(ctx):
     ctx.tlc("Controllers", "Controllers_hist.cfg" if q else "Controllers_hist8.cfg", workers=16,
             coverage=False)
     ctx.tlc("Controllers", "Controllers_len12.cfg", workers=8, coverage=True,
-            need_actions=["UserStep", "Reset", "LoopStart", "LoopBody", "LoopExit"])
+            need_actions=["UserStep", "Reset", "LoopStart", "LoopBody", "LoopExit", "Save", "Restore"])
     r = ctx.tlc("Controllers", "Controllers_live.cfg", workers=4)
     # unbounded budget / patience / history length: inductive invariant discharged by Apalache
     obligations = [("IndInit", "IndInv", 1), ("Init", "IndInv", 0), ("IndInit", "BudgetInv", 0)]
